@@ -168,12 +168,15 @@ class MemoryPoolList {
   }
 
   Pool* addPool(Allocator* allocator) {
+    if (count_ >= maxPools)  // the inline table can be larger than maxPools
+      return nullptr;
     if (count_ == capacity_ && !increaseCapacity(allocator))
       return nullptr;
     auto pool = &pools_[count_++];
     SlotCount poolCapacity = ARDUINOJSON_POOL_CAPACITY;
     if (count_ == maxPools)  // last pool is smaller because of NULL_SLOT
-      poolCapacity--;
+      poolCapacity = SlotCount(
+          NULL_SLOT - SlotId((maxPools - 1) * ARDUINOJSON_POOL_CAPACITY));
     pool->create(poolCapacity, allocator);
     return pool;
   }
@@ -182,7 +185,9 @@ class MemoryPoolList {
     if (capacity_ == maxPools)
       return false;
     void* newPools;
-    auto newCapacity = PoolCount(capacity_ * 2);
+    auto newCapacity = maxPools;
+    if (capacity_ < maxPools / 2)  // don't grow past maxPools, and don't wrap
+      newCapacity = PoolCount(capacity_ * 2);
 
     if (pools_ == preallocatedPools_) {
       newPools = allocator->allocate(newCapacity * sizeof(Pool));
@@ -207,8 +212,10 @@ class MemoryPoolList {
   SlotId freeList_ = NULL_SLOT;
 
  public:
+  // number of pools needed to hold NULL_SLOT slots (ids 0 to NULL_SLOT-1)
   static const PoolCount maxPools =
-      PoolCount(NULL_SLOT / ARDUINOJSON_POOL_CAPACITY + 1);
+      PoolCount(NULL_SLOT / ARDUINOJSON_POOL_CAPACITY +
+                (NULL_SLOT % ARDUINOJSON_POOL_CAPACITY != 0));
 };
 
 ARDUINOJSON_END_PRIVATE_NAMESPACE
